@@ -896,6 +896,38 @@ def generate_shared_cell(seed, tie='prng'):
             'seed': seed, 'max_events': 20000, 'default_names': True, 'profile': 'shared_cell'}
 
 
+def generate_blocked_paths(seed, tie='prng'):
+    """One or two sources through their own paths of one shared cell (a group with one quick machine) into a SLOW
+    station each; the paths' inputs are closed and reopened on a script (as an operating schedule does in
+    examples/SharedResourcesComplex.py).  A part that entered through a path still leaves through it while the path's
+    input is closed: it waits, finished, in the cell until the slow station has room."""
+    rng = random.Random(core.stable_int('blocked_paths', seed))
+    n = rng.choice([1, 2, 2])
+    ct = rng.choice([0.5, 1])
+    items = []
+    for k in range(n):
+        items.append({'id': f'S{k}', 'kind': 'source', 'ct': rng.choice([0, ct]), 'budget': None, 'values': [1],
+                      'qualities': [1]})
+    items.append({'id': 'M', 'kind': rng.choice(['handler', 'processor']), 'up': [], 'ct': ct, 'res': None})
+    items.append({'id': 'CELL', 'kind': 'group', 'members': ['M']})
+    for k in range(n):
+        items.append({'id': f'GP{k}', 'kind': 'path', 'group': 'CELL', 'up': [f'S{k}']})
+    for k in range(n):
+        items.append({'id': f'D{k}', 'kind': 'handler', 'up': [f'GP{k}'], 'ct': ct * rng.choice([3, 4, 6]), 'res': None})
+        items.append({'id': f'K{k}', 'kind': 'sink', 'up': [f'D{k}'], 'ct': 0, 'collect': False})
+    horizon = float(rng.choice([30, 40]))
+    script = []
+    for _ in range(rng.choice([2, 3, 5])):
+        t = grid_time(rng, horizon * 0.8)
+        gp = f'GP{rng.randrange(n)}'
+        script.append({'t': t, 'prio': rng.choice(PRIOS), 'op': 'block', 'target': gp})
+        script.append({'t': min(horizon, t + rng.choice([2, 4, 7, 12])), 'prio': rng.choice(PRIOS), 'op': 'unblock',
+                       'target': gp})
+    script.sort(key=lambda e: e['t'])
+    return {'resources': {}, 'items': items, 'horizon': [horizon], 'script': script, 'tie': tie,
+            'seed': seed, 'max_events': 20000, 'profile': 'blocked_paths'}
+
+
 def generate_big_batches(i, tie='prng'):
     """Scale: output batches of several hundred parts (sizes beyond anything a small-number shortcut covers)."""
     size = [257, 300, 1000, 256, 258][i % 5]
